@@ -280,7 +280,7 @@ func (ck *c18Checker) check(where string, quiescent bool) { //nolint:gocognit,cy
 	}
 }
 
-var c18Debug = true //nolint:gochecknoglobals
+var c18Debug = false //nolint:gochecknoglobals
 
 func c18Seq(seq []int) string {
 	var parts []string
